@@ -13,7 +13,8 @@ ASSUMPTIONS = ['cells that do not hold a value of the column type (alt text, lis
                'only rejections with UniqueReferenceError are judged here (other failed bundles are the subject of C04)',
                'trigger states of the two open findings are quarantined: a bundle after which a linked column has a default / '
                'trigger formula is taken back unjudged, a bundle in which one record action wrote both columns of a pair and '
-               'left them asymmetric is reported under the finding and taken back']
+               'left them asymmetric is reported under the finding and taken back, likewise a bundle that creates the record '
+               'of an id which a linked cell already named while no such record existed']
 REQUIRED = {'C11.checked': {'quick': 1500, 'thorough': 10000}, 'unique_rejections': {'quick': 5, 'thorough': 100},
             'bundles_with_linked_pairs': {'quick': 150, 'thorough': 1500}}
 
@@ -24,11 +25,13 @@ WEIGHTS = {'add_ref_column': 10, 'add_reverse': 10, 'add_records': 14, 'update_r
 
 KNOWN_FORMULA = 'formula_writes_two_way_column'
 KNOWN_BOTH = 'one_action_writes_both_sides'
+KNOWN_REVIVED = 'dangling_id_gets_a_record'
 
 
 def plan(tier, seed):
   n, steps = (16, 50) if tier == 'quick' else (64, 90)
-  return [{'witness': 'formula_writes_two_way_column'}, {'witness': 'one_action_writes_both_sides'}] + \
+  return [{'witness': 'formula_writes_two_way_column'}, {'witness': 'one_action_writes_both_sides'},
+          {'witness': 'dangling_id_gets_a_record'}] + \
          [{'hseed': seed * 100003 + 11000 + i, 'steps': steps} for i in range(n)]
 
 
@@ -63,6 +66,57 @@ def pairs_written_by_one_action(bundle, S0, S1):
             out.add(((t2, c2), (t, c)))
   walk(bundle)
   return out
+
+
+def explained_by_revived_ids(info, S0, S1):
+  """Mechanism of the open finding dangling_id_gets_a_record: every unmatched pair (a, b) is one whose
+  cell already named b before the bundle while the partner table had no record b (the engine accepts a
+  reference to a row that does not exist as long as the column is not linked yet, and ignores it when
+  the link is made), and the bundle created record b."""
+  (t, c), (t2, c2) = info['pair']
+  ba, bb = info['bases']
+  if t not in S0 or t2 not in S0 or c not in S0[t][1] or c2 not in S0[t2][1]:
+    return False
+  rows0 = {t: set(S0[t][0]), t2: set(S0[t2][0])}
+  def cell0(tab, col, row, base):
+    if row not in rows0[tab]:
+      return []
+    v = S0[tab][1][col][S0[tab][0].index(row)]
+    return invariants.ref_cell_targets(v, base) or []
+  if not info['only_forward'] and not info['only_backward']:
+    return False
+  for (a, b) in info['only_forward']:       # b in cell t.c[a], a not in cell t2.c2[b]
+    if b in rows0[t2] or b not in cell0(t, c, a, ba):
+      return False
+  for (a, b) in info['only_backward']:      # a in cell t2.c2[b], b not in cell t.c[a]
+    if a in rows0[t] or a not in cell0(t2, c2, b, bb):
+      return False
+  return True
+
+
+def witness_dangling_id_gets_a_record(acc):
+  """Open finding: T.R (RefList:U) = [1] while U has no record (accepted); AddReverseColumn T R ignores
+  the id; [AddRecord U {X: 5}] creates record 1 of U, whose U.T cell does not list T[1]."""
+  from vlib.client import EngineProc
+  with EngineProc() as p:
+    p.init_doc()
+    p.apply([['AddTable', 'U', [{'id': 'X', 'type': 'Int', 'isFormula': False}]]])
+    p.apply([['AddTable', 'T', [{'id': 'R', 'type': 'RefList:U', 'isFormula': False}]]])
+    r, e = p.try_apply([['AddRecord', 'T', None, {'R': ['L', 1]}]])
+    acc.count('witness_runs')
+    if e is not None:
+      return     # the dangling reference is refused: the defect is gone
+    p.apply([['AddReverseColumn', 'T', 'R']])
+    S0 = snapshot.take(p)
+    if invariants.c11(S0)[0]:
+      acc.violation('witness_setup', 'witness history: asymmetric before the trigger: %s' % invariants.c11(S0)[0][:2], {})
+      return
+    p.apply([['AddRecord', 'U', None, {'X': 5}]])
+    S1 = snapshot.take(p)
+    det = []
+    for (mech, msg), info in list(zip(invariants.c11(S1, det)[0], det))[:1]:
+      acc.violation(KNOWN_REVIVED if mech == 'asymmetric' and explained_by_revived_ids(info, S0, S1) else mech,
+                    'witness: T.R = [1] with U empty, AddReverseColumn T R, [AddRecord U {X: 5}]: %s' % msg, {})
 
 
 def witness_formula_writes_two_way_column(acc):
@@ -167,7 +221,10 @@ class TwoWay(histories.Monitor):
     for (mech, msg), info in zip(msgs, det):
       if mech == 'asymmetric' and info.get('pair') in both:
         mech = KNOWN_BOTH
-        hit = True
+        hit = KNOWN_BOTH
+      elif mech == 'asymmetric' and explained_by_revived_ids(info, ctx.S0, S1):
+        mech = KNOWN_REVIVED
+        hit = hit or KNOWN_REVIVED
       elif shown >= 3:
         continue
       else:
@@ -176,7 +233,7 @@ class TwoWay(histories.Monitor):
     nh = histories.nontrivial_hash(ctx) if n > len(invariants.two_way_pairs(S1)[0]) else None
     acc.case(nh, {'bundle': ctx.bundle} if nh else None)
     if hit:
-      self.take_back(h, ctx, KNOWN_BOTH)
+      self.take_back(h, ctx, hit)
       return
     self.undo.after_bundle(h, ctx)
 
